@@ -510,8 +510,8 @@ func genMalformed(r *Rng) Recipe {
 		case 6:
 			rows, cols, mut = 1000, 1000, "big-dims"
 		case 7:
-			// Rows*Cols wraps around in the reader's check.  Plain element types only: a Real matrix would
-			// allocate max(Rows, Cols) >= 2^32 scratch scalars in initTmp (out of memory, not a panic)
+			// Rows*Cols wraps around (rejected since 6dfd87a).  Plain element types only: if the check regressed, a
+			// Real matrix would allocate max(Rows, Cols) >= 2^32 scratch scalars in initTmp (out of memory, not a panic)
 			if !et.Real {
 				switch r.Intn(4) {
 				case 0:
@@ -715,7 +715,7 @@ func hunt(o Opts) {
 	seen := map[string]bool{}
 	var out []OracleRec
 	for i, rc := range recipes {
-		if rc.Kind == "const" || rc.Kind == "t-lit" {
+		if rc.Kind == "t-lit" {
 			continue
 		}
 		for _, f := range runRecipe(rc).Failures {
